@@ -341,6 +341,41 @@ pub fn run(tier: Tier, seed: u64) -> i32 {
             }
         });
     }
+    // ------------------------------- long values --------------------------------------------
+    {
+        let mut vals: Vec<Vec<u8>> = Vec::new();
+        for l in [15usize, 16, 17, 63, 64, 65, 255, 256, 257, 1000] {
+            vals.push(vec![b'a'; l]);
+            let mut t = vec![b'a'; l];
+            t[l - 1] = b'b';
+            vals.push(t.clone());
+            t[0] = b'B';
+            vals.push(t);
+        }
+        let ctxs: Vec<MCtx> = vals
+            .iter()
+            .map(|v| {
+                let mut m = MCtx::new();
+                m.insert("s".into(), V::Bytes(v.clone()));
+                m
+            })
+            .collect();
+        let b = Bench::new(&tag, uni.clone(), ctxs);
+        for p in ["^a.*b$", "ab+$", "^a+$", "b|B", "^(a|B)a*b$", "a[^a]$", "^.a"] {
+            for form in [BytesForm::Quoted, BytesForm::Raw(1)] {
+                let e = Expr::cmp(Lhs::field("s"), CmpOp::Matches, Rhs::Regex(p.to_string(), form));
+                note(check_filter(&run, ID, &b, &e));
+                run.count("long_value_filters", 1);
+            }
+        }
+        for p in [&b"a*b"[..], b"*ab", b"a*", b"*b", b"b*b", b"*a*a*b", b"a*a"] {
+            for op in [CmpOp::Wildcard, CmpOp::StrictWildcard] {
+                let e = Expr::cmp(Lhs::field("s"), op, Rhs::Lit(Lit::Bytes(p.to_vec(), BytesForm::Quoted)));
+                note(check_filter(&run, ID, &b, &e));
+                run.count("long_value_filters", 1);
+            }
+        }
+    }
     run.set("programs", json!(programs.load(Ordering::Relaxed)));
     run.finish(
         nontrivial.load(Ordering::Relaxed),
